@@ -328,11 +328,13 @@ def _run(t: str, s: int) -> Result:
                 tensors[nm] = {"fmt": kernels.fmt_record(k.formats[nm]), "dims": dims_t, **pk}
             inputs.append({"cid": wid, "tensors": tensors})
         wide_tasks.append({"id": f"w{ki}", "op": "eval_batch", "text": k.text, "formats": k.formats, "cap": cap,
-                           "backend": "llvm", "inputs": inputs})
+                           "backend": "llvm", "inputs": inputs, "chain": has_sparse_output(k) and ki % 3 == 0})
     wnat = pool.run(wide_tasks)
     obs_cases = []
     obs_meta = {}
     wide_bad = []
+    chain_bad = []
+    chained = 0
     for tid, r in wnat.items():
         ki = int(tid[1:])
         k, cap, group = kernel_list[ki]
@@ -347,6 +349,11 @@ def _run(t: str, s: int) -> Result:
                 wide_bad.append({"kernel": ki, "text": k.text, "formats": k.formats, "cap": cap,
                                  "what": "raised-" + o["exc"], "input": wm})
                 continue
+            if o.get("chain") not in (None, "ok"):
+                chain_bad.append({"kernel": ki, "text": k.text, "formats": k.formats, "cap": cap, "group": group,
+                                  "dims": wm["dims"], "content": wm["content"], "what": o["chain"], "out": o["out"]})
+            if "chain" in o:
+                chained += 1
             vals = [dyadic(v) for v in o["out"]["vals"]]
             if any(v is None or abs(v["n"]) > 32767 for v in vals):
                 continue  # outside the model's value box: not judged
@@ -408,6 +415,6 @@ def _run(t: str, s: int) -> Result:
         tier=t, seed=s, wall=timer.s(), kernels=len(kernel_list), programs=len(programs), skipped_requests=skipped,
         states=ra.distinct + rc_states[0] + states_gen, transitions=ra.generated + rc_states[1] + trans_gen, depth=ra.depth,
         exhaustive_input_kernels=len(gen_cases), exhaustive_input_behaviours=gen_expected,
-        coverage=ra.coverage, records=records, traces=traces, wide_bad=wide_bad,
+        coverage=ra.coverage, records=records, traces=traces, wide_bad=wide_bad, chain_bad=chain_bad, chained=chained,
         native_tasks=len(tasks), wide_tasks=len(wide_tasks),
     )
